@@ -359,9 +359,14 @@ class IntegerSequence(SequenceBase):
                 self.i_step = None
                 self.p_stop = self.p_start
             else:
-                self.i_step = IntegerInterval.from_integer(
-                    int(self.p_stop - self.p_start) / (reps - 1)
-                )
+                step, remainder = divmod(
+                    int(self.p_stop - self.p_start), reps - 1)
+                if remainder:
+                    raise SequenceParsingError(
+                        f'Invalid integer recurrence: {expression}'
+                        f' ({reps} points do not fit evenly)'
+                    )
+                self.i_step = IntegerInterval.from_integer(step)
         else:
             # This means that format_num == 4.
             # REPEAT/PERIOD/STOP
